@@ -28,15 +28,53 @@ def corpus():
     return [{"k": 900, "args": [[-1]], "call": a, "group": "corpus-F9"}, {"k": 900, "args": [[-2]], "call": b, "group": "corpus-F9"}]
 
 
+def _stem_raster(rng, nr, nc):
+    """every cell drains towards the bottom-right corner (E / SE / S at random), so long stems run along the last
+    row and column and through the last pixel; optional nodata block in the top-left corner"""
+    br, bc = (rng.randint(0, nr // 2), rng.randint(0, nc // 2)) if rng.random() < 0.7 else (0, 0)
+    flw = []
+    if rng.random() < 0.5 and nr >= 2 and nc >= 2:
+        # east along the rows, south down the last column, west along the last row to a pit: the stem passes THROUGH
+        # the last pixel of the raster
+        p = rng.randint(0, nc - 2)
+        for r in range(nr):
+            for c in range(nc):
+                if r < br and c < bc:
+                    flw.append(247)
+                elif r == nr - 1:
+                    flw.append(0 if c == p else (16 if c > p else 1))
+                elif c == nc - 1:
+                    flw.append(4)
+                else:
+                    flw.append(rng.choice([1, 1, 2]) if c < nc - 1 else 4)
+        return flw
+    for r in range(nr):
+        for c in range(nc):
+            if r < br and c < bc:
+                flw.append(247)
+            elif r == nr - 1 and c == nc - 1:
+                flw.append(0)
+            elif r == nr - 1:
+                flw.append(1)
+            elif c == nc - 1:
+                flw.append(4)
+            else:
+                flw.append(rng.choice([1, 2, 4]))
+    return flw
+
+
 def cases(tier, rng):
-    n = 500 if tier == "quick" else 5000
+    n = 1200 if tier == "quick" else 10000
     for t in range(n):
         style = rng.random()
         if style < 0.12:
             nr, nc = (1, rng.randint(2, 12)) if rng.random() < 0.5 else (rng.randint(2, 12), 1)
         else:
             nr, nc = rng.randint(2, 12), rng.randint(2, 12)
-        flw = nets.random_d8_raster(rng, nr, nc, p_nodata=rng.choice([0, 0, 0.1, 0.3, 0.6]))
+        if 0.12 <= style < 0.4:
+            flw = _stem_raster(rng, nr, nc)
+        else:
+            flw = nets.random_d8_raster(rng, nr, nc, p_nodata=rng.choice([0, 0, 0.1, 0.3, 0.6]))
         ds = nets.d8_decode(flw, nr, nc)
         if not nets.pits(ds):
             continue
@@ -46,7 +84,9 @@ def cases(tier, rng):
         method = rng.choice(METHODS)
         user = rng.random() < 0.3
         w = [rng.randint(1, 4) for _ in range(nr * nc)] if user else None
-        yield {"k": 900, "args": [[t]], "call": {"nr": nr, "nc": nc, "ds": ds, "s": s, "method": method, "w": w},
+        # user areas also in fractional units (km2-like): the order of the values is what the kernels use
+        scale = rng.choice([1, 0.25, 0.0081]) if user else 1
+        yield {"k": 900, "args": [[t]], "call": {"nr": nr, "nc": nc, "ds": ds, "s": s, "method": method, "w": w, "scale": scale},
                "group": f"{method}-s{s}" + ("-user" if user else "")}
 
 
@@ -75,7 +115,7 @@ def impl(case):
         upa_used = [int(x) if x > 0 else 0 for x in np.asarray(flw.upstream_area()).ravel().tolist()]
     else:
         acc = _acc(ds, c["w"])
-        upa = np.array(acc, dtype=np.float64).reshape(nr, nc)
+        upa = (np.array(acc, dtype=np.float64) * c.get("scale", 1)).reshape(nr, nc)
         upa_used = [int(a) if ds[i] >= 0 else 0 for i, a in enumerate(acc)]
     upa_before = None if upa is None else upa.copy()
     with warnings.catch_warnings():
